@@ -1,4 +1,5 @@
 import XmppModel.Lemmas.StylingScanner
+import XmppModel.Lemmas.StylingStable
 /-! Chunk independence of the scanner model for any *stable* split function. -/
 namespace XmppModel.Styling
 
@@ -143,4 +144,32 @@ theorem scanner_chunk_indep {σ : Type} (split : Split σ) (I : σ → Prop) (sp
             rw [this, List.append_assoc, List.take_append_drop]
             exact refRun_congr split (k + 1) s s' (buf ++ pending)
               (st.more_ext s buf pending true s' hI hne hsp)
+
+/-- the styling split function is stable -/
+theorem decScan_stable : Stable Dec.scan Dec.OK where
+  tok_ext := by
+    intro s d x e a t s' _ hne h
+    have hr := scanLv_rel d false false s.lv s.inner
+    unfold Dec.scan at h ⊢
+    simp only [Prod.mk.injEq] at h
+    obtain ⟨h1, h2⟩ := h
+    have := scanLv_tok_ext x e hne hr h1
+    simp only [this, h1, h2]
+  more_ext := by
+    intro s d x e s' _ hne h
+    have hr := scanLv_rel d false false s.lv s.inner
+    unfold Dec.scan at h ⊢
+    simp only [Prod.mk.injEq] at h
+    obtain ⟨h1, h2⟩ := h
+    have := scanLv_more_ext x e hne hr h1
+    subst h2
+    simp only [this]
+
+/-- every schedule gives the reference run of the styling decoder -/
+theorem scanDoc_eq_ref (sch : Schedule) (doc : Bytes) :
+    scanDoc none sch doc = refRun Dec.scan (fuelFor doc) {} doc := by
+  have := scanner_chunk_indep Dec.scan Dec.OK decScan_spec decScan_stable (fuelFor doc) sch.sizes sch.dataEOF
+    {} [] doc false Dec.ok_init (by simp) (by simp [runMeasure, fuelFor]) (fuelFor doc) (by simp [fuelFor]; omega)
+  simpa [scanDoc] using this
+
 end XmppModel.Styling
